@@ -185,3 +185,22 @@ fn e6_next_after_end_of_empty_bucket() {
     assert!(c.next().is_none());
     let _ = std::fs::remove_file(&p);
 }
+
+// E7 (C01/C08, observation): after a cursor has run past the end of a multi-level bucket it rests on a branch node;
+// Cursor::current() then reads it as a leaf.
+#[test]
+fn e7_current_after_end_of_multilevel_bucket() {
+    let p = tmp("e7");
+    let db = OpenOptions::new().pagesize(1024).open(&p).unwrap();
+    try_commit_keys(&db, 0, 400, 20).unwrap();
+    let tx = db.tx(false).unwrap();
+    let b = tx.get_bucket("b").unwrap();
+    let mut c = b.cursor();
+    let mut n = 0;
+    while c.next().is_some() { n += 1; }
+    assert_eq!(n, 400);
+    assert!(c.next().is_none());
+    let cur = c.current();          // must not panic; None or the last entry are both acceptable
+    let _ = cur;
+    let _ = std::fs::remove_file(&p);
+}
